@@ -147,7 +147,7 @@ def _sync_post(c):
     sentinel = T == INVALID
     # after an effective set the ghost set point is (T, now)
     g2 = dict(g, T0=T, M0=g['now'])
-    backup_calls = [e for e in c.log if e[0] == 'setNow']
+    backup_calls = [e for e in c.log if e[0] == 'setNow' and len(e) == 3]
     expected = z3.And(z3.Not(sentinel), o['bak'] != 0, o['bak'] != o['ref'], o['E'] != T)
     if len(backup_calls) == 0:
         called = z3.BoolVal(False)
@@ -194,7 +194,7 @@ def _setnow_post2(c):
     o = fields(c.old, c.this)
     T = c.args[1]
     out = _sync_post_nolog(c)
-    calls = [e for e in c.log if e[0] == 'setNow']
+    calls = [e for e in c.log if e[0] == 'setNow' and len(e) == 3]
     # the reference clock, when present, is set to the same value (last call in the log)
     if calls:
         last = calls[-1]
@@ -363,6 +363,7 @@ def _loop_post(c):
     now = g['now']
     ref = o['ref']
     log = c.log
+    log = [e for e in log if len(e) == 3]
     sends = [e for e in log if e[0] == 'sendRequest']
     readies = [e for e in log if e[0] == 'isResponseReady']
     reads = [e for e in log if e[0] == 'readResponse']
